@@ -46,7 +46,53 @@ def build():
     return out
 
 
+def run_fuzz(binary, job, tier, seed, shard_dir):
+    """Native coverage-guided fuzzing (cannot be pinned to a seed; the saved crasher is the reproducible unit)."""
+    target = job["fuzz"]
+    secs = job.get("fuzztime_" + tier, 120)
+    env = dict(ENV)
+    env.update({"VERIF_TIER": tier, "VERIF_SEED": str(seed)})
+    crash_dir = os.path.join(HARNESS, "testdata", "fuzz", target)
+    before = set(os.listdir(crash_dir)) if os.path.isdir(crash_dir) else set()
+    t0 = time.time()
+    cmd = ["go", "test", "-tags", "verif", "-run", "^$", "-fuzz", "^%s$" % target, "-fuzztime", "%ds" % secs, "."]
+    p = subprocess.run(cmd, cwd=HARNESS, env=env, stdout=subprocess.PIPE, stderr=subprocess.STDOUT, text=True)
+    out = p.stdout
+    execs = 0
+    for line in out.splitlines():
+        if "execs:" in line:
+            try:
+                execs = int(line.split("execs:")[1].split()[0])
+            except Exception:
+                pass
+    rc = p.returncode
+    after = set(os.listdir(crash_dir)) if os.path.isdir(crash_dir) else set()
+    new = sorted(after - before)
+    stats = None
+    if new:
+        # re-run the saved crashers through the ordinary test binary so that the oracle prints its VIOLATION line
+        out_path = os.path.join(shard_dir, "%s.fuzzreplay.json" % target)
+        env2 = dict(env)
+        env2["VERIF_SHARD_OUT"] = out_path
+        q = subprocess.run([binary, "-test.run", "^%s$" % target, "-test.timeout", "300s"], cwd=HARNESS, env=env2,
+                           stdout=subprocess.PIPE, stderr=subprocess.STDOUT, text=True)
+        out += "\n" + q.stdout
+        keep = os.path.join(ROOT, "replays", job.get("property", "fuzz"), "fuzz-crashers")
+        os.makedirs(keep, exist_ok=True)
+        for n in new:
+            shutil.move(os.path.join(crash_dir, n), os.path.join(keep, n))
+        rc = 1
+    elif rc != 0 and "VIOLATION " not in out:
+        rc = 2
+    fstats = [{"id": job.get("property", ""), "evals": execs, "nt": [], "labels": {"fuzz_execs": execs}, "extra": {"fuzz_execs": execs, "fuzz_seconds": secs},
+               "notes": {}, "exhaustive": {}, "samples": [], "assumptions": [], "rule": ""}]
+    return {"test": target, "shard": 0, "rc": rc, "out": out, "timed_out": False, "wall": time.time() - t0,
+            "stats": fstats, "checks": None, "rseed": None}
+
+
 def run_job(binary, job, tier, seed, shard, nshards, shard_dir, timeout):
+    if job.get("fuzz"):
+        return run_fuzz(binary, job, tier, seed, shard_dir)
     test, checks = job["test"], job.get(tier)
     out_path = os.path.join(shard_dir, "%s.%d.json" % (test, shard))
     env = dict(ENV)
@@ -153,6 +199,7 @@ def check(pid, tier):
     for idx, j in enumerate(PLAN[pid]):
         j = dict(j)
         j["idx"] = idx
+        j.setdefault("test", j.get("fuzz"))
         if j.get("tiers") and tier not in j["tiers"]:
             continue
         n = nshards_rapid if j.get("sharded") else 1
@@ -163,13 +210,17 @@ def check(pid, tier):
     timeout = int(os.environ.get("VERIF_JOB_TIMEOUT", "420" if tier == "quick" else "5400"))
     workers = 4 if tier == "quick" else max(4, ncpu - 2)
     results = []
-    try:
-        with ThreadPoolExecutor(max_workers=workers) as ex:
-            futs = [ex.submit(run_job, binary, j, tier, seed, s, n, shard_dir, j.get("timeout_" + tier, timeout)) for (j, s, n) in jobs]
-            for f in futs:
-                results.append(f.result())
-    finally:
-        pass
+    fuzz_jobs = [(j, s, n) for (j, s, n) in jobs if j.get("fuzz")]
+    jobs = [(j, s, n) for (j, s, n) in jobs if not j.get("fuzz")]
+    with ThreadPoolExecutor(max_workers=workers) as ex:
+        futs = [ex.submit(run_job, binary, j, tier, seed, s, n, shard_dir, j.get("timeout_" + tier, timeout)) for (j, s, n) in jobs]
+        for f in futs:
+            results.append(f.result())
+    # native fuzzing uses all cores itself: run it after the sharded jobs, and only if nothing failed yet
+    if not any("VIOLATION " in r["out"] for r in results):
+        for (j, s, n) in fuzz_jobs:
+            j["property"] = pid
+            results.append(run_job(binary, j, tier, seed, 0, 1, shard_dir, timeout))
     violations = set()
     known = []
     infra = []
